@@ -96,7 +96,7 @@ theorem wp_receiveChunk {A} {cookie : Bytes} {c : Chunk} {Q : Unit → St → Pr
     simp only [receiveChunk, wp_bind, wp_getE]
     refine wp_receiveSack h ?_
     intro e' l' hw hf
-    obtain ⟨cs, dcs, q, tx, rfl, _⟩ := hf
+    obtain ⟨cs, dcs, q, tx, _, _, _, _, rfl, _⟩ := hf
     exact hq _ _ hw ha hso
   | forwardTsn flags ctsn streams =>
     obtain ⟨ht, hs⟩ := hc
